@@ -19,13 +19,13 @@ import numpy as np
 
 PROPERTY = 'C12'
 LEVEL = 'exploration'
-RULE = ("every table in {none,up,down}^(3 pairs x G genes), G=3 (4 "
-        "thorough) x taxonomy {flat, two-level} x target {1,2,3} x query "
+RULE = ("every table in {none,up,down}^(3 pairs x G genes), G=3 "
+        "(thorough: unthinned, plus every 7th table of G=4 thinned like the "
+        "quick tier - a sub-lattice, not exhaustive) x taxonomy {flat, two-level} x target {1,2,3} x query "
         "gene sets {all, drop each one, add a foreign gene} x {full table, "
         "thinned table} per parent through select_marker_genes_v2 (quick: "
         "the two-level taxonomy on every table, the flat one on every 3rd, "
-        "query-set deviations on every 9th; thorough: everything but each "
-        "query-set deviation on every 9th table); "
+        "query-set deviations on every 9th); "
         "select_all_markers with n_processors {1,2,3} x behemoth_cutoff "
         "{0,1,10^7} x per-parent override for every 27th table (quick: "
         "every 81st, workers {1,3}, cutoffs {0,10^7}).  "
@@ -50,17 +50,32 @@ TREES = {
 
 
 def bounds(tier):
-    return {'n_genes': 3 if tier == 'quick' else 4, 'targets': [1, 2, 3]}
+    if tier == 'quick':
+        return {'n_genes': 3, 'targets': [1, 2, 3], 'thinned': True}
+    return {'n_genes': 3, 'targets': [1, 2, 3], 'thinned': False,
+            'n_genes_sublattice': 4, 'sublattice_stride': 7}
 
 
 def cases(tier, seed):
     yield {'kind': 'big', 'seed': seed}
-    G = bounds(tier)['n_genes']
-    n_tables = 3 ** (3 * G)
-    step = 81 if tier == 'quick' else 2187
-    for start in range(0, n_tables, step):
-        yield {'G': G, 'start': start, 'stop': min(n_tables, start + step),
-               'seed': seed, 'quick': tier == 'quick'}
+    if tier == 'quick':
+        n_tables = 3 ** 9
+        for start in range(0, n_tables, 81):
+            yield {'G': 3, 'start': start,
+                   'stop': min(n_tables, start + 81), 'seed': seed,
+                   'quick': True}
+        return
+    # thorough: the whole product, unthinned, over every 3-gene table ...
+    n_tables = 3 ** 9
+    for start in range(0, n_tables, 81):
+        yield {'G': 3, 'start': start, 'stop': min(n_tables, start + 81),
+               'seed': seed, 'quick': False}
+    # ... and the thinned product over every 7th 4-gene table (a regular
+    # sub-lattice of the 3^12 tables: the full set takes hours)
+    n_tables = 3 ** 12
+    for start in range(0, n_tables, 2187):
+        yield {'G': 4, 'start': start, 'stop': min(n_tables, start + 2187),
+               'seed': seed, 'quick': True, 'stride': 7}
 
 
 def table_from_index(idx, G):
@@ -330,7 +345,7 @@ def evaluate(case, scratch):
         for m in msgs[:2]:
             violations.append({'key': key, 'msg': m})
 
-    for idx in range(case['start'], case['stop']):
+    for idx in range(case['start'], case['stop'], case.get('stride', 1)):
         cells = table_from_index(idx, G)
         path = d / f't_{idx}.h5'
         write_marker_file(path, cells, genes)
